@@ -162,6 +162,25 @@ def systematic_leaves(k0):
                                       node=j + 1, bind=[], **{"async": mask[j]}))
                 yield dict(name="Init" + P, prefix=P, ret="*%sT0" % P, provs=provs, layout=list(range(len(provs))), kind="valid",
                            meta=dict(n=n + 1, nargs=1, nf=0, structnode=None, second=[], binds=[], values=[]))
+    # no slack in the pool count: no injector argument, no synchronous input-free provider; optionally one leaf is the source
+    # of a Struct expansion whose fields the root consumes (the accessor nodes enter the antichain computation)
+    for n in (2, 3):
+        for with_struct in (False, True):
+            for perm in (list(itertools.permutations(range(n)))[0], list(itertools.permutations(range(n)))[-1]):
+                P = "Y%d" % k
+                k += 1
+                def leaf_type(j):
+                    return ("%sF0" % P) if (with_struct and j == 0) else "*%sT%d" % (P, j + 1)
+                provs = [dict(kind="fn", fn="New%sT0" % P, requires=[leaf_type(j) for j in perm], provides=[["*%sT0" % P]],
+                              fallible=True, node=0, bind=[], **{"async": False})]
+                for j in range(n):
+                    prv = [["*%sSt" % P]] if (with_struct and j == 0) else [["*%sT%d" % (P, j + 1)]]
+                    provs.append(dict(kind="fn", fn="New%sT%d" % (P, j + 1), requires=[], provides=prv, fallible=False, node=j + 1, bind=[], **{"async": True}))
+                if with_struct:
+                    provs.append(dict(kind="struct", type="*%sSt" % P, fields=[["FldC", "%sF0" % P]], requires=["*%sSt" % P], provides=[["*%sSt" % P]],
+                                      fallible=False, fn=None, node=None, wrap="plain", **{"async": False}))
+                yield dict(name="Init" + P, prefix=P, ret="*%sT0" % P, provs=provs, layout=list(range(len(provs))), kind="valid",
+                           meta=dict(n=n + 1, nargs=0, nf=1 if with_struct else 0, structnode=1 if with_struct else None, second=[], binds=[], values=[]))
     # the same shape with interface bindings on the leaves, in the nesting Bind[I](Async(Provide(f))): all leaves Async
     for n in (2, 3):
         perms = list(itertools.permutations(range(n)))
@@ -180,6 +199,25 @@ def systematic_leaves(k0):
                                       node=j + 1, bind=b, nest="bind_outer", **{"async": True}))
                 yield dict(name="Init" + P, prefix=P, ret="*%sT0" % P, provs=provs, layout=list(range(len(provs))), kind="valid",
                            meta=dict(n=n + 1, nargs=1, nf=0, structnode=None, second=[], binds=[j + 1 for j in range(n) if bmask[j]], values=[]))
+
+
+def ctx_mid_decls(k0):
+    """context.Context is an ordinary unsupplied dependency discovered between other injector arguments, and a needed
+    provider is Async: ctx must be moved to the front without disturbing the other parameters (C10)."""
+    out = []
+    k = k0
+    for shape in range(4):
+        P = "X%d" % k
+        k += 1
+        root_req = {0: ["%sA0" % P, "*%sT1" % P, "%sA1" % P], 1: ["*%sT1" % P, "%sA0" % P], 2: ["%sA0" % P, "%sA1" % P, "*%sT1" % P], 3: ["%sA0" % P, "*%sT1" % P]}[shape]
+        t1_req = {0: [CTX, "%sA2" % P], 1: ["%sA1" % P, CTX, "%sA2" % P], 2: ["%sA2" % P, CTX], 3: ["%sA1" % P, CTX, "%sA2" % P, "%sA3" % P]}[shape]
+        provs = [dict(kind="fn", fn="New%sT0" % P, requires=root_req, provides=[["*%sT0" % P]], fallible=True, node=0, bind=[], **{"async": False}),
+                 dict(kind="fn", fn="New%sT1" % P, requires=t1_req, provides=[["*%sT1" % P]], fallible=False, node=1, bind=[], **{"async": True}),
+                 dict(kind="fn", fn="New%sT2" % P, requires=[], provides=[["*%sT2" % P]], fallible=False, node=2, bind=[], **{"async": True})]
+        provs[0]["requires"] = provs[0]["requires"] + ["*%sT2" % P]
+        out.append(dict(name="Init" + P, prefix=P, ret="*%sT0" % P, provs=provs, layout=[0, 1, 2], kind="valid",
+                        meta=dict(n=3, nargs=4, nf=0, structnode=None, second=[], binds=[], values=[])))
+    return out
 
 
 def known_finding_decls():
@@ -311,6 +349,17 @@ def mutate_malformed(rnd, d, kind):
         d["layout"] = list(range(len(d["provs"])))
         d["kind"] = "dup"
         d["expect"] = dict(err="dup", types=["%sDF" % P])
+        return d
+    if kind == "orphan_self":
+        # an orphan Struct expansion whose struct has an exported field of its own pointer type: its own accessor must not
+        # count as the source of the struct
+        st = "*%sRSt" % P
+        sp = dict(kind="struct", type=st, fields=[["FldA", "%sRF0" % P], ["FldB", st]], requires=[st], provides=[[st]],
+                  fallible=False, fn=None, node=None, wrap="plain", orphan=True, selfref=True, **{"async": False})
+        d["provs"].insert(rnd.randrange(len(d["provs"]) + 1), sp)
+        d["layout"] = list(range(len(d["provs"])))
+        d["kind"] = "orphan"
+        d["expect"] = dict(err="orphan", types=[st])
         return d
     if kind == "orphan":
         # a Struct expansion whose struct type nobody supplies
